@@ -17,6 +17,7 @@ open Proto Stat
       g2   <N> <nSel> <ns> <gs>                   -> calculate_ns_grad2 (single dataset)
       g2m  <g2s> <fs>                             -> calculate_ns_grad2 (multi dataset)
       pv   <op> <tsv> <thr>                       -> ok k n p sigma | err V | err Z
+      pg   <tsv> <n_max> <thr> <eta> <sf(eta)> <sf(thr)> -> ok p | err V | err Z   (gamma-fit branch)
       mix  <op> <tsv> <thr> <switch> <eta|none>   -> T <pv answer> | G <eta>
       poly <deg> <params(deg)> <params(1)> <pthr> -> ok <ns> <degree used> | err V | err I
       bind <params> <required> <kwargs> <nPos> <kws> -> ok | err ...
@@ -166,6 +167,14 @@ def answer (line : String) : String :=
   | ["pv", op, tsv, thr] =>
       let l := pList pF tsv
       fPv (pval (pOp op) l (pF thr)) (pvalCounts (pOp op) l (pF thr))
+  | ["pg", tsv, nmax, thr, eta, sfeta, sfthr] =>
+      -- gamma-fit p-value with the fitted survival function given by its two relevant values
+      let e := pF eta
+      let sf : Float → Float := fun t => if t == e then pF sfeta else pF sfthr
+      match pGamma sf (truncSample (pList pF tsv) (pN nmax)) (pF thr) e with
+      | .ok p => "ok " ++ fF p
+      | .error .valueError => "err V"
+      | .error .zeroDivision => "err Z"
   | ["mix", op, tsv, thr, sw, eta] =>
       let l := pList pF tsv
       let e : Option Float := if eta == "none" then none else some (pF eta)
